@@ -84,6 +84,7 @@ func New() *OrderedDaemon {
 		workers:                make(map[string]*worker),
 		shutdownOrderWorker:    make([]string, 0),
 		wgPerSameShutdownOrder: make(map[int]*sync.WaitGroup),
+		activeWorkersCond:      sync.NewCond(&sync.Mutex{}),
 	}
 }
 
@@ -98,8 +99,11 @@ type OrderedDaemon struct {
 	workers                map[string]*worker
 	shutdownOrderWorker    []string
 	wgPerSameShutdownOrder map[int]*sync.WaitGroup
-	lock                   syncutils.RWMutex
-	logger                 log.Logger
+	// activeWorkers counts the started workers that have not finished yet (guarded by the mutex of activeWorkersCond).
+	activeWorkers     int
+	activeWorkersCond *sync.Cond
+	lock              syncutils.RWMutex
+	logger            log.Logger
 }
 
 type worker struct {
@@ -152,6 +156,10 @@ func (d *OrderedDaemon) runBackgroundWorker(name string, backgroundWorker Worker
 	shutdownOrderWaitGroup := d.wgPerSameShutdownOrder[worker.shutdownOrder]
 	shutdownOrderWaitGroup.Add(1)
 
+	d.activeWorkersCond.L.Lock()
+	d.activeWorkers++
+	d.activeWorkersCond.L.Unlock()
+
 	worker.running.Store(true)
 	go func() {
 		if d.logger != nil {
@@ -171,6 +179,11 @@ func (d *OrderedDaemon) runBackgroundWorker(name string, backgroundWorker Worker
 		// otherwise there is a race condition between starting another worker with the same name
 		// and a worker that is scheduled for cleanup.
 		worker.running.Store(false)
+
+		d.activeWorkersCond.L.Lock()
+		d.activeWorkers--
+		d.activeWorkersCond.L.Unlock()
+		d.activeWorkersCond.Broadcast()
 
 		if d.logger != nil {
 			d.logger.LogDebugf("Stopping Background Worker: %s ... done", name)
@@ -274,38 +287,19 @@ func (d *OrderedDaemon) Start() {
 func (d *OrderedDaemon) Run() {
 	d.Start()
 
-	// wait until all wait groups for all shutdown orders are finished
-	for _, wg := range d.waitGroupsForAllShutdownOrders() {
-		if wg == nil {
-			continue
-		}
-		wg.Wait()
+	// wait until no started worker is left. (The wait groups of the shutdown orders are not used here: they are a
+	// snapshot that misses workers added at a new shutdown order later on, and they are armed again when a worker is
+	// added to an order whose workers have all finished, which must not happen while somebody waits for them.)
+	d.activeWorkersCond.L.Lock()
+	for d.activeWorkers > 0 {
+		d.activeWorkersCond.Wait()
 	}
+	d.activeWorkersCond.L.Unlock()
 
-	// the wait groups above are a snapshot: if the daemon is being shut down, also wait until the shutdown has stopped
-	// the workers that were added (or re-added) after the snapshot was taken.
+	// if the daemon is being shut down, also wait until the shutdown has finished.
 	if d.IsStopped() {
 		d.ShutdownAndWait()
 	}
-}
-
-// returns all waitgroups of all existing shutdown orders or nil if none.
-func (d *OrderedDaemon) waitGroupsForAllShutdownOrders() []*sync.WaitGroup {
-	d.lock.RLock()
-	defer d.lock.RUnlock()
-
-	if len(d.wgPerSameShutdownOrder) == 0 {
-		return nil
-	}
-
-	waitGroups := make([]*sync.WaitGroup, len(d.wgPerSameShutdownOrder))
-	i := 0
-	for _, wg := range d.wgPerSameShutdownOrder {
-		waitGroups[i] = wg
-		i++
-	}
-
-	return waitGroups
 }
 
 func (d *OrderedDaemon) shutdown() {
